@@ -329,6 +329,9 @@ func constValue(c *ssa.Const) Value {
 			return StrV{S: constant.StringVal(c.Value)}
 		case u.Kind() == types.Float64 || u.Kind() == types.UntypedFloat:
 			f, _ := constant.Float64Val(c.Value)
+			if exactIntFloats.Load() {
+				return exactFloatConst(f)
+			}
 			return ConstF(f)
 		case u.Kind() == types.Float32:
 			f, _ := constant.Float32Val(c.Value)
@@ -567,6 +570,32 @@ func (w *W) binop(s *State, op token.Token, xv, yv Value, xt, yt types.Type) Val
 		}
 		panic(execErr{fmt.Sprintf("binop %v on %T,%T", op, xv, yv)})
 	}
+	if exactIntFloats.Load() && x.S.K == KBV {
+		if _, isF := fpSortOf2(xt); isF {
+			// exact-integer float mode: float64 values are integers of magnitude < 2^53 held in
+			// 64-bit signed bit-vectors; + and - are exact as long as the result stays in range
+			// (checked), comparisons are signed; anything else is refused.
+			switch op {
+			case token.ADD:
+				r := BvBin("bvadd", x, y)
+				w.exactRange(s, r)
+				return r
+			case token.SUB:
+				r := BvBin("bvsub", x, y)
+				w.exactRange(s, r)
+				return r
+			case token.LSS:
+				return BvCmp("bvslt", x, y)
+			case token.LEQ:
+				return BvCmp("bvsle", x, y)
+			case token.GTR:
+				return BvCmp("bvsgt", x, y)
+			case token.GEQ:
+				return BvCmp("bvsge", x, y)
+			}
+			panic(execErr{"exact-integer float mode does not support " + op.String()})
+		}
+	}
 	if x.S.K == KFP {
 		switch op {
 		case token.ADD:
@@ -724,6 +753,14 @@ func (w *W) convert(s *State, v Value, from, to types.Type) Value {
 				return Resize(term(v), wd, sg)
 			case fStr && tStr:
 				return v
+			case fInt && tIsF && exactIntFloats.Load():
+				_, sg := widthOf(fb)
+				r := Resize(term(v), 64, sg)
+				w.exactRange(s, r)
+				return r
+			case fIsF && tInt && exactIntFloats.Load():
+				wd, _ := widthOf(tb)
+				return Resize(term(v), wd, true)
 			case fInt && tIsF:
 				_, sg := widthOf(fb)
 				t := term(v)
